@@ -409,6 +409,37 @@ def ite(c, a, b):
     return mk("ite", c, a, b)
 
 
+EXT_POSITIONAL = {
+    "np.linspace": ("start", "stop", "num"),
+    "np.histogram": ("a", "bins"),
+    "np.interp": ("x", "xp", "fp"),
+    "np.correlate": ("a", "v", "mode"),
+    "np.round": ("a", "decimals"),
+    "np.clip": ("a", "a_min", "a_max"),
+    "np.full": ("shape", "fill_value"),
+    "np.reshape": ("a", "newshape"),
+    "np.insert": ("arr", "obj", "values"),
+    "np.append": ("arr", "values"),
+    "np.pad": ("array", "pad_width"),
+    "np.dot": ("a", "b"),
+    "np.maximum": ("x1", "x2"),
+    "np.minimum": ("x1", "x2"),
+    "np.searchsorted": ("a", "v"),
+    "np.where": ("condition", "x", "y"),
+    "np.unique": ("ar",),
+    "np.mod": ("x1", "x2"),
+    "np.arange": ("start",),
+    "np.zeros": ("shape",),
+    "np.ones": ("shape",),
+    "np.empty": ("shape",),
+    "np.diff": ("a", "n"),
+    "np.isclose": ("a", "b"),
+    "np.allclose": ("a", "b"),
+    "scipy.interpolate.interp1d": ("x", "y", "kind"),
+    "builtins.enumerate": ("iterable", "start"),
+    "builtins.round": ("number", "ndigits"),
+    "util.match_events": ("ref", "est", "window"),
+}
 _NP_BIN = {"np.subtract": "-", "np.add": "+", "np.multiply": "*", "np.divide": "/"}
 _REDUCE_ALIASES = {"np.maximum.reduce": "np.max", "np.minimum.reduce": "np.min", "np.add.reduce": "np.sum", "np.logical_and.reduce": "np.all", "np.logical_or.reduce": "np.any"}
 _AXIS_SECOND = {"np.min", "np.max", "np.sum", "np.mean", "np.any", "np.all", "np.argmin", "np.argmax", "np.std", "np.median"}
@@ -421,6 +452,15 @@ def call(fn, args=(), kw=()):
     if name in FUNC_ALIASES:
         name = FUNC_ALIASES[name]
         fn = ext(name)
+    if name in EXT_POSITIONAL and kw:
+        # np.linspace(a, b, num=n) is np.linspace(a, b, n): a keyword that names the next positional parameter
+        names_ = EXT_POSITIONAL[name]
+        args = tuple(args)
+        kw = tuple(kw)
+        while len(args) < len(names_) and any(k_ == names_[len(args)] for k_, _ in kw):
+            nm_ = names_[len(args)]
+            args = args + (dict(kw)[nm_],)
+            kw = tuple((k_, v_) for k_, v_ in kw if k_ != nm_)
     if name in CMP_FUNCS and len(args) == 2 and not kw:
         return cmp(CMP_FUNCS[name], args[0], args[1])
     if name in _NP_BIN and len(args) == 2 and not kw:
